@@ -122,7 +122,7 @@ var variants = []variant{
 }
 
 func run(r *ev.Run, cfg props.Cfg) {
-	n := cfg.Pick(2000, 40000)
+	n := cfg.Pick(40000, 500000)
 	var wg sync.WaitGroup
 	per := (n + cfg.Workers - 1) / cfg.Workers
 	for w := 0; w < cfg.Workers; w++ {
